@@ -127,7 +127,14 @@ def mutate_attr(
             # its own copy of it rather than sharing it with the original.
             value = getattr(obj, "__dict__", {}).get(attr, value)
 
-    # Perform actual mutation
+    # Perform actual mutation (an in-place write whose invalidation of
+    # dependants fails is rolled back as a whole)
+    with _restore_attrs_on_error(obj, only_if=inplace):
+        _write_and_invalidate(obj, attr, value, metadata, inplace, skip_invalidation)
+    return obj
+
+
+def _write_and_invalidate(obj, attr, value, metadata, inplace, skip_invalidation):
     try:
         getattr(obj.__setattr__, "__raw__", setattr)(obj, attr, value)
     except AttributeError as e:
@@ -149,8 +156,6 @@ def mutate_attr(
     if not skip_invalidation and metadata and metadata.invalidation_map:
         with unfrozen(obj, only_if=not inplace):
             invalidate_attrs(obj, attr, metadata.invalidation_map)
-
-    return obj
 
 
 def invalidate_attrs(obj: Any, attr: str, invalidation_map: Dict[str, Set[str]] = None):
